@@ -5,7 +5,6 @@ package gohlslib
 // C07 — Close unblocks every request and releases all storage.
 
 import (
-	"os"
 	"sync/atomic"
 	"time"
 )
@@ -23,20 +22,6 @@ func (w *vWaiter) start(m *Muxer) {
 		w.resp = verifGet(m, w.uri)
 		w.done.Store(true)
 	}()
-}
-
-func verifLiveFiles() int {
-	if verifDirectoryName == "" {
-		return 0
-	}
-	if verifSymbolic() {
-		return len(verifFSLiveFiles())
-	}
-	es, err := os.ReadDir(verifDirectoryName)
-	if err != nil {
-		return 0
-	}
-	return len(es)
 }
 
 // VerifH_C07_close: P writes (P symbolic, including 0), up to two pending requests of symbolic
